@@ -260,20 +260,22 @@ class G:
     self.op(BO.EMBEDDING_LOOKUP, [ids, w], [y])
     return y
 
-  def avgpool(self, x, k=2, stride=2):
+  def avgpool(self, x, k=2, stride=2, act=0):
     n, h, wd, c = self.shape[x]
     o = S.Pool2DOptionsT()
     o.padding = 1
+    o.fusedActivationFunction = act
     o.strideH = o.strideW = stride
     o.filterHeight = o.filterWidth = k
     y = self.act('avgpool', (n, (h - k) // stride + 1, (wd - k) // stride + 1, c))
     self.op(BO.AVERAGE_POOL_2D, [x], [y], o, S.BuiltinOptions.Pool2DOptions)
     return y
 
-  def maxpool(self, x, k=2, stride=2):
+  def maxpool(self, x, k=2, stride=2, act=0):
     n, h, wd, c = self.shape[x]
     o = S.Pool2DOptionsT()
     o.padding = 1
+    o.fusedActivationFunction = act
     o.strideH = o.strideW = stride
     o.filterHeight = o.filterWidth = k
     y = self.act('maxpool', (n, (h - k) // stride + 1, (wd - k) // stride + 1, c))
@@ -479,13 +481,16 @@ def rand_graph(g, rng, n_ops=6, allow_unsupported=True, allow_emb=True,
                      bias=True, act=int(rng.choice([0, 1])))]
     elif k == 'dwconv':
       outs = [g.dwconv(t, int(rng.choice([1, 2])), k=int(rng.choice([1, 3])), same=True,
-                       bias=True)]
+                       bias=True, act=int(rng.choice([0, 0, 1, 3])))]
     elif k == 'tconv':
       outs = [g.tconv(t, int(rng.integers(1, 3)), bias=rng.random() < 0.5)]
     elif k in ('avgpool', 'maxpool'):
       if min(sh[1], sh[2]) < 2:
         continue
-      outs = [getattr(g, k)(t)]
+      pact = int(rng.choice([1, 3])) if rng.random() < 0.25 else 0     # relu(avg_pool(x)) is fused by the converter
+      if pact:
+        g.classes.add('fused_activation_pool')
+      outs = [getattr(g, k)(t, act=pact)]
     elif k == 'bmm':
       outs = [g.bmm(t, n_out=int(rng.choice([2, 4])), adj_y=bool(rng.random() < 0.4))]
       g.classes.add('bmm_const_rhs')
@@ -640,7 +645,11 @@ def rand_model(rng, n_sub=1, n_ops=None, sep='_', **kw):
     outs = rand_graph(g, rng, n_ops=n_ops or int(rng.integers(1, 9)), **kw)
     g.finish(outs, 'serving_default' if n_sub == 1 else f'sig{i}')
     graphs.append(g)
-  return _spec(b, graphs, 'random')
+  spec = _spec(b, graphs, 'random')
+  if n_sub > 1 and rng.random() < 0.35:
+    # SignatureDef order is not subgraph order (and tensor / buffer numbering is arbitrary): position is not identity
+    spec = shuffle_indices(spec, rng, tensors=bool(rng.random() < 0.5), buffers=bool(rng.random() < 0.5), signatures=True)
+  return spec
 
 
 # ---------------------------------------------------------------- directed templates
@@ -890,7 +899,7 @@ SINGLE_OPS = {
     'CONV_2D_TRANSPOSE': ['tconv', 'tconv_nobias'],
     'BATCH_MATMUL': ['bmm_const', 'bmm_const_adj', 'bmm_act', 'bmm_rank2', 'bmm_rank2_adj'],
     'EMBEDDING_LOOKUP': ['emb'],
-    'AVERAGE_POOL_2D': ['avgpool'], 'RESHAPE': ['reshape'], 'SOFTMAX': ['softmax'], 'TANH': ['tanh'],
+    'AVERAGE_POOL_2D': ['avgpool', 'avgpool_relu'], 'RESHAPE': ['reshape'], 'SOFTMAX': ['softmax'], 'TANH': ['tanh'],
     'LOGISTIC': ['logistic'], 'GELU': ['gelu'], 'RSQRT': ['rsqrt'], 'TRANSPOSE': ['transpose'],
     'ADD': ['add', 'add_const', 'add_scalar'], 'SUB': ['sub', 'sub_const', 'sub_scalar', 'sub_constfirst'],
     'MUL': ['mul', 'mul_const', 'mul_scalar', 'mul_constfirst'],
@@ -941,6 +950,8 @@ def single_op_model(rng, variant, odd=False):
       return [g.emb(ids, vocab, o(4, 5))]
     if v == 'avgpool':
       return [g.avgpool(g.inp((1, 4, 4, o(2, 3))))]
+    if v == 'avgpool_relu':
+      return [g.avgpool(g.inp((1, 4, 4, o(2, 3))), act=int(rng.choice([1, 3])))]
     if v == 'reshape':
       return [g.reshape(g.inp((2, 6)), [3, 4])]
     if v in ('softmax', 'tanh', 'logistic', 'gelu'):
